@@ -144,7 +144,11 @@ func genC16(t *rapid.T, tier string) (*World, any) {
 		{ID: "942110", Ops: []string{"@rx"}, Regex: []string{"stale3"}},
 		{ID: "942120", Ops: []string{"!@rx"}, Regex: []string{"stale4"}},
 	}
-	renderRuleFile(rf, RulesOpts{}, "# rules\n\n", nil)
+	ropts := RulesOpts{CRLF: chance(t, 20, "crlf")}
+	if chance(t, 30, "idnotfirst") {
+		ropts.IDNotFirst = []int{drawInt(t, 0, 1, "inf0"), drawInt(t, 0, 1, "inf1"), drawInt(t, 0, 1, "inf2")}
+	}
+	renderRuleFile(rf, ropts, "# rules\n\n", nil)
 	w.Put(rulesPath, rf.Content)
 	w.Put("crs/rules/REQUEST-941-APPLICATION-ATTACK-XSS.conf", "# other\n")
 	w.Put("crs/regex-assembly/include/inc1.ra", joinLines(drawWordList(t, 1, 4, "inc1", []string{"s", "es"})))
@@ -220,6 +224,10 @@ func genC16(t *rapid.T, tier string) (*World, any) {
 	switch {
 	case c16LineFaults[class] != "":
 		fault := strings.Split(c16LineFaults[class], "\n")
+		if class == "unsupported-flag" {
+			// alone, or next to supported flags
+			fault = []string{pick(t, []string{"##!+ x", "##!+ ix", "##!+ sx", "##!+ xi", "##!+ I", "##!+ i,s"}, "badflag")}
+		}
 		lines := progs[victim]
 		at := drawInt(t, 0, len(lines), "at")
 		// keep flags lines and definitions valid where they are: insert after a leading flags line
